@@ -105,6 +105,7 @@ class Secret(object):
         self.needles = []
         for x in t:
             self.needles += [x.encode(), x.upper().encode()]
+        self.value = t[7]      # the literal that line 10 assigns to V9$
         self.token = t[3]      # in the REM text of line 120 (raw in the tokenised code)
         self.needles += [b'%d' % target, b'%d' % number, bytes([target % 256, target // 256]),
                          bytes([number % 256, number // 256])]
@@ -127,10 +128,12 @@ class Secret(object):
         else:
             if stx:
                 self.lines.append((5, '%s %s' % (t[5], t[6]), 1))
-            self.lines += [(10, 'END', 10), (20, 'REM -pokehere', 11), (30, 'REM -scaffold30', 12),
+            # line 10 assigns a string variable from a literal (its VALUE may be seen: variable contents are
+            # out of scope; any other program byte seen through it is a disclosure) and ends the run
+            self.lines += [(10, 'V9$="%s":END' % t[7], 10), (20, 'REM -pokehere', 11), (30, 'REM -scaffold30', 12),
                            (40, 'REM -scaffold40', 13)]
             self.lines += secret
-            self.lines.append((9000, 'E%=ERR:RESUME NEXT', 14))
+            self.lines.append((9000, 'E%=ERR:RESUME NEXT:COMMON V9$', 14))
         self.lines.sort()
         self.text = ''.join('%d %s\r' % (n, x) for n, x, _ in self.lines)
 
@@ -157,6 +160,8 @@ class Secret(object):
             s.execute('NEW')
             s.execute('15 END\r')
             s.execute('SAVE "U"')
+            s.execute('15 PRINT V9$:END\r')
+            s.execute('SAVE "W"')
         self.win = w
         with open(os.path.join(d, 'MA.BAS'), 'wb') as f:
             f.write(b'8 REM -merged\r\n\x1a')
@@ -237,6 +242,11 @@ def op_text(name, arg, i, sec, run=False):
         return 'RUN "%s"' % arg
     if name == 'chain':
         return 'CHAIN "%s"' % arg
+    if name == 'chainall':
+        # CHAIN (no MERGE: allowed on a protected program) with ALL / COMMON and a DELETE range, to a program
+        # that prints the preserved string variable
+        mode, rg = arg
+        return 'CHAIN "W",,%sDELETE %s' % ('ALL,' if mode == 0 else '', ['10-40', '10-10', '20-40', '10-30'][rg])
     if name == 'new':
         return 'NEW'
     if name == 'delete':
@@ -295,6 +305,8 @@ def op_coq(name, arg, stx):
         return '(ORunFile %s)' % f(arg)
     if name == 'chain':
         return '(OChain %s)' % f(arg)
+    if name == 'chainall':
+        return '(OChain (FPlain other_code))'
     if name == 'delete':
         return '(ODelete %s)' % core.zl(ALL_CODES if arg == 'all' else list(arg))
     if name == 'autoline':
@@ -354,6 +366,10 @@ class C16(core.Check):
                                                                 ['field', [3, 0, 0], 0], ['field', [3, 2, 4], 0]]},
             {'k': 'd', 'hide': 1, 'stx': 0, 'seed': 18, 'ev': [['load', 'Q', 0], ['field', [3, 5, 0], 0],
                                                                 ['load', 'U', 0], ['field', [3, 5, 0], 0]]},
+            # CHAIN ,,ALL / COMMON with DELETE on a protected program whose variable points at a literal (seed C16f)
+            {'k': 'd', 'hide': 1, 'stx': 0, 'seed': 23, 'ev': [L, ['chainall', [0, 0], 0]]},
+            {'k': 'd', 'hide': 1, 'stx': 0, 'seed': 24, 'ev': [L, ['chainall', [1, 1], 0]]},
+            {'k': 'd', 'hide': 1, 'stx': 0, 'seed': 25, 'ev': [L, ['chainall', [0, 2], 1], L, ['chainall', [0, 3], 0]]},
             # witnesses of the fixed defects D16a (READ) and D16b (RENUM)
             {'k': 'd', 'hide': 1, 'stx': 0, 'seed': 8, 'ev': [L, ['read', 0, 0]]},
             {'k': 'd', 'hide': 1, 'stx': 0, 'seed': 9, 'ev': [L, ['renum', 0, 0]]},
@@ -383,7 +399,7 @@ class C16(core.Check):
                                'peekflag', 'bsavecode', 'bsaveother', 'pokeflag', 'pokecode', 'pokeother',
                                'bloadmissing', 'bloadflag', 'bloadcode', 'bloadother', 'storenew', 'storedel',
                                'merge', 'chainmerge', 'load', 'runfile', 'chain', 'new', 'delete', 'renum', 'read',
-                               'enterrun', 'editprompt', 'field', 'field', 'field'])
+                               'enterrun', 'editprompt', 'field', 'field', 'field', 'chainall', 'chainall'])
             arg = 0
             if name == 'list':
                 arg = rng.randrange(4)
@@ -405,6 +421,10 @@ class C16(core.Check):
                 arg = rng.choice(['P', 'P', 'Q', 'U', 'N'])
             elif name == 'delete':
                 arg = rng.choice([[12], [13], [12, 13], [], 'all'])
+            elif name == 'chainall':
+                if st['stx'] or not st['pristine']:
+                    continue
+                arg = [rng.choice([0, 0, 1]), rng.randrange(4)]
             elif name == 'field':
                 arg = [rng.choice([3, 3, 3, 2, 1]), rng.randrange(len(FIELD_PATTERNS)), rng.randrange(6)]
             running = name in ('enterrun', 'chainmerge') or (name in ('runfile', 'chain') and arg in 'PQ')
@@ -412,7 +432,7 @@ class C16(core.Check):
                 continue
             if name == 'editprompt' and not st['stx']:
                 continue
-            changes = name in ('storenew', 'storedel', 'merge', 'chainmerge', 'load', 'runfile', 'chain', 'new',
+            changes = name in ('chainall', 'storenew', 'storedel', 'merge', 'chainmerge', 'load', 'runfile', 'chain', 'new',
                                'delete', 'renum', 'pokecode', 'bloadcode', 'editprompt', 'enterrun')
             ctx = 0
             r = rng.random()
@@ -579,6 +599,9 @@ class C16(core.Check):
                     if ctx == 2:
                         s.execute(b'E%=0:ON ERROR GOTO 9000')
                         del rec[:]
+                    if name == 'chainall':
+                        s.execute(b'RUN')        # the program assigns V9$ from its literal
+                        del rec[:]
                     if name == 'field':
                         setup, fld, reads, ev, cleanup = field_texts(arg, i, sec.token)
                         typed = windows(fld.encode('latin1'))
@@ -613,6 +636,8 @@ class C16(core.Check):
                     blobs = [out] + [v[len(before[f]):] if f == 'LPT.OUT' and f in before else v
                                      for f, v in after.items() if before.get(f) != v]
                     lk = self.leak(sec, blobs, typed)
+                    if name == 'chainall' and not err and out.strip() != sec.value.encode():
+                        lk = 1      # the preserved variable shows program bytes other than its own value
                     val = 0
                     if name == 'peekflag' and not err:
                         mo = re.search(br'(\d+)', out)
@@ -764,7 +789,7 @@ class C16(core.Check):
             for i, (name, arg, ctx) in enumerate(case['ev']):
                 code, val, lk, flag = out[4 * i:4 * i + 4]
                 was = present
-                if name in ('load', 'runfile', 'chain') and code == 0:
+                if name in ('load', 'runfile', 'chain', 'chainall') and code == 0:
                     present = (arg == 'P')
                 elif name == 'new' and code == 0:
                     present = False
